@@ -87,7 +87,7 @@ let head_is_unl (s : sched) = match flatten s with x :: _ -> is_unl x | [] -> fa
 (* does the abstract Next at [now] take its token from a window? *)
 let rec from_window now (its : item list) =
   match its with
-  | IW f :: r -> if zlt now f then true else from_window now r
+  | IW (_, f) :: r -> if zlt now f then true else from_window now r
   | _ -> false
 
 (* ---------------------------------------------------------------- seq *)
@@ -134,7 +134,9 @@ let seq_case (tree : string) (ops : string) (obs : string) : string * string * b
                | 'N' -> (match s_next fuel now s with
                          | Ok ((s', t), ok) ->
                              let cb' = cb_after_next ok cb in
-                             let f = if ok && head_is_unl s' then FU else FN (t, ok) in
+                             (* a token "now" of an unlimited part prints as u; its start time (when that
+                                is still ahead of the clock) is an ordinary time *)
+                             let f = if ok && head_is_unl s' && zeq t now then FU else FN (t, ok) in
                              go s' cb' r ((f, fired cb') :: acc)
                          | Panic k -> List.rev ((FP (pk k), false) :: acc)
                          | OutOfFuel -> List.rev ((FP "fuel", false) :: acc))
@@ -162,7 +164,7 @@ let seq_case (tree : string) (ops : string) (obs : string) : string * string * b
                let u = from_window now a1.a_items in
                let ((its, t), ok) = abs_next now a1.a_fin a1.a_items in
                let cb' = cb_after_next ok cb in
-               let f = if ok && u then FU else FN (t, ok) in
+               let f = if ok && u && zeq t now then FU else FN (t, ok) in
                go { a1 with a_started = true; a_items = its } cb' r ((f, fired cb') :: acc)
            | _ ->
                let k =
